@@ -65,7 +65,7 @@ def solve_knapsack(
     # Convert to integer capacity for DP (scale if needed)
     int_capacity, scale = _to_int_capacity(capacity, weights)
 
-    if int_capacity == 0:
+    if int_capacity == 0 and not any(w == 0 for w in weights):
         # No capacity, can't take anything
         return Result((), 0.0, 0, n, Status.OPTIMAL)
 
